@@ -2,7 +2,10 @@ package main
 
 import (
 	"fmt"
+	"go/constant"
+	"go/token"
 	"go/types"
+	"sort"
 	"strings"
 
 	"golang.org/x/tools/go/ssa"
@@ -47,7 +50,11 @@ func stateWrites(fn *ssa.Function) []stateWrite {
 		switch callName(c.Common()) {
 		case "sync.Map.Store":
 			out = append(out, stateWrite{In: c, Val: c.Common().Args[2]})
-		case "sync.Map.Delete":
+		case "sync.Map.Swap", "sync.Map.LoadOrStore":
+			out = append(out, stateWrite{In: c, Val: c.Common().Args[2]})
+		case "sync.Map.CompareAndSwap":
+			out = append(out, stateWrite{In: c, Val: c.Common().Args[3]})
+		case "sync.Map.Delete", "sync.Map.LoadAndDelete", "sync.Map.CompareAndDelete":
 			out = append(out, stateWrite{In: c, Delete: true})
 		case "builtin.delete":
 			out = append(out, stateWrite{In: c, Delete: true})
@@ -61,6 +68,24 @@ func stateWrites(fn *ssa.Function) []stateWrite {
 		}
 	})
 	return out
+}
+
+// knownFlag: v is the "entry present" boolean of a state lookup (sync.Map.Load*/Swap, or the
+// comma-ok of an index expression on a map).
+func knownFlag(v ssa.Value) bool {
+	ex, ok := v.(*ssa.Extract)
+	if !ok || ex.Index != 1 {
+		return false
+	}
+	switch t := ex.Tuple.(type) {
+	case *ssa.Call:
+		n := callName(t.Common())
+		return strings.HasPrefix(n, "sync.Map.Load") || n == "sync.Map.Swap"
+	case *ssa.Lookup:
+		_, isMap := t.X.Type().Underlying().(*types.Map)
+		return t.CommaOk && isMap
+	}
+	return false
 }
 
 func isProcResult(v ssa.Value, calls []*ssa.Call) bool {
@@ -194,12 +219,8 @@ func checkC18(w *World, r *Report) {
 					if l, k := lenFact(f); l != nil && k == "empty" {
 						return true
 					}
-					if f.Kind == FFalse {
-						if ex, isEx := f.V.(*ssa.Extract); isEx && ex.Index == 1 {
-							if c, isC := ex.Tuple.(*ssa.Call); isC && strings.HasPrefix(callName(c.Common()), "sync.Map.Load") {
-								return true
-							}
-						}
+					if f.Kind == FFalse && knownFlag(f.V) {
+						return true
 					}
 					if f.Kind == FTrue {
 						if c, _ := resultOfCall(f.V); c != nil && strings.HasPrefix(callName(c.Common()), "slices.Contains") {
@@ -211,20 +232,22 @@ func checkC18(w *World, r *Report) {
 				r.Ob(ri2, w.FnName(fn)+"|create-only-if-unknown", s.Call.Pos(), ok, "OnCreated is reachable for a source that is already known")
 			case "OnDeleted":
 				ok := onlyVia(fn, s.Call.Block(), func(f Fact) bool {
-					if f.Kind == FTrue {
-						if ex, isEx := f.V.(*ssa.Extract); isEx && ex.Index == 1 {
-							if c, isC := ex.Tuple.(*ssa.Call); isC && strings.HasPrefix(callName(c.Common()), "sync.Map.Load") {
-								return true
-							}
-						}
-					}
-					return false
+					return f.Kind == FTrue && knownFlag(f.V)
 				})
 				if !ok {
-					// iteration over ids taken from the state
+					// iteration over ids taken from the state (maps.Keys(state) or range over the state map)
 					if dependsOn(w, s.Call.Common().Args[0], func(x ssa.Value) bool {
-						c, isC := x.(*ssa.Call)
-						return isC && strings.Contains(callName(c.Common()), "maps.Keys")
+						if c, isC := x.(*ssa.Call); isC && strings.Contains(callName(c.Common()), "maps.Keys") {
+							return true
+						}
+						if nx, isNext := x.(*ssa.Next); isNext && !nx.IsString {
+							if rg, isRange := nx.Iter.(*ssa.Range); isRange {
+								if _, isMap := rg.X.Type().Underlying().(*types.Map); isMap {
+									return strings.Contains(rg.X.Type().String(), "State") || strings.Contains(strings.ToLower(rg.X.Name()), "state")
+								}
+							}
+						}
+						return false
 					}) {
 						ok = true
 					}
@@ -232,6 +255,42 @@ func checkC18(w *World, r *Report) {
 				r.Ob(ri4, w.FnName(fn)+"|delete-only-if-known", s.Call.Pos(), ok, "OnDeleted is reachable for a source that was never loaded")
 			}
 		}
+	}
+	// C18.8: unloading a vanished source does not depend on another source's new content being accepted
+	ri8 := r.Rule("C18.8", 1, "where a provider applies additions/updates and removals in one pass, a rejected addition or update does not make the removals of that pass unreachable")
+	n8 := 0
+	for fn, ss := range byFn {
+		for _, a := range ss {
+			if a.Kind == "OnDeleted" {
+				continue
+			}
+			for _, d := range ss {
+				if d.Kind != "OnDeleted" {
+					continue
+				}
+				n8++
+				if !reachableAfter(a.Call, d.Call) {
+					// removals are not downstream of this call at all
+					r.Ob(ri8, fmt.Sprintf("%s|%s-then-OnDeleted", w.FnName(fn), a.Kind), a.Call.Pos(), true, "")
+					continue
+				}
+				ok := false
+				for _, b := range fn.Blocks {
+					for bi := range b.Succs {
+						for _, f := range edgeFacts(b, bi) {
+							if f.Kind == FNonNil && isResult(a.Call, 0)(f.V) && reachFromEdge(b, bi, nil)[d.Call.Block()] {
+								ok = true
+							}
+						}
+					}
+				}
+				r.Ob(ri8, fmt.Sprintf("%s|%s-then-OnDeleted", w.FnName(fn), a.Kind), a.Call.Pos(), ok,
+					"the removal of vanished sources comes after "+a.Kind+" in the same pass and is skipped when the processor rejects that rule set: a source that no longer exists stays loaded for as long as another source's content is rejected")
+			}
+		}
+	}
+	if n8 == 0 {
+		r.Undecided(ri8, "no provider function both adds/updates and removes rule sets")
 	}
 	// C18.3: an invalid new version (load / parse error other than 'empty' or 'gone') neither reaches the processor nor the state
 	ri3 := r.Rule("C18.3", 1, "a new version that cannot be loaded leaves state and processor untouched unless it is classified as empty or gone")
@@ -324,6 +383,8 @@ func checkC18(w *World, r *Report) {
 		return touching[callee] == 2
 	}
 	c18InvalidVersion(w, r, byFn, touches)
+	c18SourceAndHash(w, r, byFn)
+	c18Events(w, r, touches)
 }
 
 // errorsIsTarget returns the package-level sentinel an errors.Is call tests for.
@@ -619,4 +680,425 @@ func mustKindsCall(w *World, c *ssa.Call, idx, depth int) map[*types.Var]bool {
 		}
 	}
 	return out
+}
+
+// ---------------------------------------------------------------------------------------------
+// C18.5 - C18.7
+// ---------------------------------------------------------------------------------------------
+
+// strShape reduces a string-valued expression to its constant skeleton: literals are kept,
+// everything else is an opaque part ("\x00"); + and fmt.Sprintf with %s/%v/%d verbs are flattened,
+// calls to module functions keep their name.
+func strShape(w *World, v ssa.Value, depth int) []string {
+	v = stripConv(v)
+	if depth > 6 {
+		return []string{"\x00"}
+	}
+	switch x := v.(type) {
+	case *ssa.Const:
+		if x.Value != nil && x.Value.Kind() == constant.String {
+			return []string{constant.StringVal(x.Value)}
+		}
+	case *ssa.BinOp:
+		if x.Op == token.ADD {
+			return mergeShape(append(strShape(w, x.X, depth+1), strShape(w, x.Y, depth+1)...))
+		}
+	case *ssa.Call:
+		cc := x.Common()
+		if callName(cc) == "fmt.Sprintf" && len(cc.Args) >= 1 {
+			if f, ok := constString(cc.Args[0]); ok {
+				var out []string
+				rest := f
+				for {
+					i := strings.IndexByte(rest, '%')
+					if i < 0 || i+1 >= len(rest) {
+						out = append(out, rest)
+						break
+					}
+					out = append(out, rest[:i])
+					if rest[i+1] == '%' {
+						out = append(out, "%")
+					} else {
+						out = append(out, "\x00")
+					}
+					rest = rest[i+2:]
+				}
+				return mergeShape(out)
+			}
+		}
+		if f := cc.StaticCallee(); f != nil && w.inModule(f) && !cc.IsInvoke() && f.Signature.Recv() == nil {
+			return []string{"call:" + f.Name()}
+		}
+	}
+	return []string{"\x00"}
+}
+
+func mergeShape(parts []string) []string {
+	var out []string
+	for _, p := range parts {
+		if p == "" {
+			continue
+		}
+		if n := len(out); n > 0 && out[n-1] != "\x00" && p != "\x00" && !strings.HasPrefix(out[n-1], "call:") && !strings.HasPrefix(p, "call:") {
+			out[n-1] += p
+			continue
+		}
+		if n := len(out); n > 0 && out[n-1] == "\x00" && p == "\x00" {
+			out = append(out, p) // two adjacent opaque parts stay two
+			continue
+		}
+		out = append(out, p)
+	}
+	return out
+}
+
+func shapeString(s []string) string {
+	var b strings.Builder
+	for _, p := range s {
+		if p == "\x00" {
+			b.WriteString("<?>")
+		} else {
+			b.WriteString(strconvQuote(p))
+		}
+	}
+	return b.String()
+}
+
+func strconvQuote(s string) string { return fmt.Sprintf("%q", s) }
+
+type sourceStore struct {
+	Fn    *ssa.Function
+	St    *ssa.Store
+	Shape []string
+}
+
+// sourceStores: every store to the Source field of a rule set's meta data in a provider package.
+func sourceStores(w *World, pkg string) []sourceStore {
+	var out []sourceStore
+	for _, fn := range w.Funcs {
+		if fnPkgPath(fn) != pkg || w.isMockFn(fn) {
+			continue
+		}
+		eachInstr(fn, func(in ssa.Instruction) {
+			st, ok := in.(*ssa.Store)
+			if !ok {
+				return
+			}
+			fa, ok := st.Addr.(*ssa.FieldAddr)
+			if !ok {
+				return
+			}
+			f := fieldOf(fa.X.Type(), fa.Field)
+			if f == nil || f.Name() != "Source" || f.Pkg() == nil || !strings.HasSuffix(f.Pkg().Path(), "/internal/rules/config") {
+				return
+			}
+			out = append(out, sourceStore{fn, st, strShape(w, st.Val, 0)})
+		})
+	}
+	return out
+}
+
+func c18SourceAndHash(w *World, r *Report, byFn map[*ssa.Function][]provSite) {
+	ri5 := r.Rule("C18.5", 3, "a vanished source is announced to the processor under the Source its rule set was created with (same constant skeleton; where the state is keyed by the Source itself, the key is handed over unchanged)")
+	ri6 := r.Rule("C18.6", 3, "the hash recorded for change detection is a digest computed by the loader over the bytes it parsed")
+	pkgs := map[string]bool{}
+	for fn := range byFn {
+		pkgs[fnPkgPath(fn)] = true
+	}
+	var pl []string
+	for p := range pkgs {
+		pl = append(pl, p)
+	}
+	sort.Strings(pl)
+	for _, pkg := range pl {
+		short := pkg[strings.LastIndex(pkg, "/")+1:]
+		// is the state keyed by the Source?
+		keyIsSource := false
+		var delFns []*ssa.Function
+		for fn, ss := range byFn {
+			if fnPkgPath(fn) != pkg {
+				continue
+			}
+			for _, s := range ss {
+				if s.Kind == "OnDeleted" {
+					delFns = append(delFns, fn)
+				}
+			}
+			for _, sw := range stateWrites(fn) {
+				if sw.Delete {
+					continue
+				}
+				var key ssa.Value
+				switch x := sw.In.(type) {
+				case *ssa.MapUpdate:
+					key = x.Key
+				case *ssa.Call:
+					if len(x.Common().Args) > 1 {
+						key = x.Common().Args[1]
+					}
+				}
+				if key != nil && pathEndsWith(stripConv(key), "Source") {
+					keyIsSource = true
+				}
+			}
+		}
+		stores := sourceStores(w, pkg)
+		if len(stores) == 0 {
+			r.Undecided(ri5, "no assignment of a rule set Source found in "+short)
+			continue
+		}
+		if keyIsSource {
+			// the deletion literal's Source must be the very key the state entry is deleted under
+			n := 0
+			for _, ss := range stores {
+				isDel := false
+				for _, d := range delFns {
+					if d == ss.Fn {
+						isDel = true
+					}
+				}
+				if !isDel {
+					continue
+				}
+				n++
+				ok := false
+				for _, sw := range stateWrites(ss.Fn) {
+					if !sw.Delete {
+						continue
+					}
+					if c, isC := sw.In.(*ssa.Call); isC {
+						args := c.Common().Args
+						k := args[len(args)-1]
+						if sameValue(k, ss.St.Val) || sameExpr(k, ss.St.Val) {
+							ok = true
+						}
+					}
+				}
+				r.Analysed(w.FnName(ss.Fn))
+				r.Ob(ri5, short+"|"+w.FnName(ss.Fn)+"|delete-source-is-state-key", ss.St.Pos(), ok,
+					fmt.Sprintf("the state of %s is keyed by the rule set's Source, but the rule set announced as deleted carries %s instead of the key itself: the processor finds no rule with that source", short, shapeString(ss.Shape)))
+			}
+			if n == 0 {
+				r.Undecided(ri5, "no Source assignment in the deleting function of "+short)
+			}
+		} else {
+			ref := stores[0]
+			ok := true
+			msg := ""
+			for _, ss := range stores[1:] {
+				if shapeString(ss.Shape) != shapeString(ref.Shape) {
+					ok = false
+					msg = fmt.Sprintf("%s assigns Source as %s in %s but as %s in %s: creation and deletion do not name the same source", short, shapeString(ref.Shape), w.FnName(ref.Fn), shapeString(ss.Shape), w.FnName(ss.Fn))
+				}
+				r.Analysed(w.FnName(ss.Fn))
+			}
+			if len(stores) < 2 {
+				r.Undecided(ri5, "only one Source assignment in "+short+" (creation and deletion expected)")
+				continue
+			}
+			r.Ob(ri5, short+"|source-skeletons-agree", ref.St.Pos(), ok, msg)
+		}
+	}
+	// C18.6
+	for _, fn := range w.Funcs {
+		p := fnPkgPath(fn)
+		if w.isMockFn(fn) || !pkgs[p] {
+			continue
+		}
+		for _, pc := range findCalls(fn, func(c *ssa.CallCommon) bool {
+			f := c.StaticCallee()
+			return f != nil && f.Name() == "ParseRules" && strings.HasSuffix(fnPkgPath(f), "/internal/rules/config")
+		}) {
+			// the Hash stores of this loader
+			var hashStores []*ssa.Store
+			eachInstr(fn, func(in ssa.Instruction) {
+				if st, ok := in.(*ssa.Store); ok {
+					if fa, ok := st.Addr.(*ssa.FieldAddr); ok {
+						if f := fieldOf(fa.X.Type(), fa.Field); f != nil && f.Name() == "Hash" {
+							hashStores = append(hashStores, st)
+						}
+					}
+				}
+			})
+			ok := len(hashStores) > 0
+			why := "the loader does not set the rule set's Hash"
+			reader := pc.Common().Args[1]
+			for _, st := range hashStores {
+				good := false
+				dependsOn(w, st.Val, func(x ssa.Value) bool {
+					c, isC := x.(*ssa.Call)
+					if !isC {
+						return false
+					}
+					cc := c.Common()
+					if cc.IsInvoke() && cc.Method.Name() == "Sum" {
+						// the hash.Hash must be fed by the reader handed to the parser
+						h := cc.Value
+						if dependsOn(w, reader, func(y ssa.Value) bool {
+							tc, ok := y.(*ssa.Call)
+							return ok && callName(tc.Common()) == "io.TeeReader" && sameValue(tc.Common().Args[1], h)
+						}) {
+							good = true
+						}
+					}
+					if f := cc.StaticCallee(); f != nil && f.Pkg != nil && strings.HasPrefix(f.Pkg.Pkg.Path(), "crypto/") && strings.HasPrefix(f.Name(), "Sum") && len(cc.Args) == 1 {
+						// digest of a byte slice the parser also reads
+						b := cc.Args[0]
+						if dependsOn(w, reader, func(y ssa.Value) bool { return sameValue(y, b) }) {
+							good = true
+						}
+					}
+					return false
+				})
+				if !good {
+					ok = false
+					why = "the recorded Hash is not a digest the loader computed over the parsed bytes (e.g. provider metadata that may be absent or stale): a content change may go unnoticed or be applied twice"
+				}
+			}
+			r.Analysed(w.FnName(fn))
+			r.Ob(ri6, w.FnName(fn)+"|hash-of-parsed-content", pc.Pos(), ok, why)
+		}
+	}
+}
+
+// c18Events (C18.7): the file-system event dispatcher, evaluated per single fsnotify operation.
+func c18Events(w *World, r *Report, touches func(*ssa.Function) bool) {
+	ri := r.Rule("C18.7", 4, "each file event that changes a source's presence or content is dispatched: create/write to the create-or-update handler, remove/rename to the delete handler")
+	want := []struct {
+		name string
+		op   int64
+		del  bool
+	}{{"Create", 1, false}, {"Write", 2, false}, {"Remove", 4, true}, {"Rename", 8, true}}
+	found := false
+	for _, fn := range w.Funcs {
+		if w.isMockFn(fn) || !strings.Contains(fnPkgPath(fn), "/internal/rules/provider/filesystem") {
+			continue
+		}
+		// the dispatcher: takes the fsnotify event and calls the handlers that reach the processor
+		takesEvent := false
+		for _, pa := range fn.Params {
+			if strings.HasSuffix(pa.Type().String(), "fsnotify.Event") {
+				takesEvent = true
+			}
+		}
+		nh := 0
+		for _, c := range callsIn(fn) {
+			if f := c.Common().StaticCallee(); f != nil && w.inModule(f) && touches(f) {
+				nh++
+			}
+		}
+		if !takesEvent || nh == 0 {
+			continue
+		}
+		found = true
+		r.Analysed(w.FnName(fn))
+		var eval func(v ssa.Value, pred *ssa.BasicBlock, op int64) (bool, bool)
+		eval = func(v ssa.Value, pred *ssa.BasicBlock, op int64) (bool, bool) {
+			switch x := v.(type) {
+			case *ssa.Const:
+				if x.Value != nil && x.Value.Kind() == constant.Bool {
+					return constant.BoolVal(x.Value), true
+				}
+			case *ssa.Call:
+				if n := callName(x.Common()); strings.HasSuffix(n, "fsnotify.Event.Has") || strings.HasSuffix(n, "fsnotify.Op.Has") {
+					if k, ok := constInt(x.Common().Args[len(x.Common().Args)-1]); ok {
+						return k&op != 0, true
+					}
+				}
+			case *ssa.UnOp:
+				if x.Op == token.NOT {
+					b, ok := eval(x.X, pred, op)
+					return !b, ok
+				}
+			case *ssa.BinOp:
+				// evt.Op&mask != 0 / == 0
+				if x.Op == token.NEQ || x.Op == token.EQL {
+					for _, pair := range [][2]ssa.Value{{x.X, x.Y}, {x.Y, x.X}} {
+						and, isAnd := pair[0].(*ssa.BinOp)
+						zero, isK := constInt(pair[1])
+						if !isAnd || and.Op != token.AND || !isK || zero != 0 {
+							continue
+						}
+						for _, m := range []ssa.Value{and.X, and.Y} {
+							if mask, ok := constInt(m); ok {
+								return (mask&op != 0) == (x.Op == token.NEQ), true
+							}
+						}
+					}
+				}
+			case *ssa.Phi:
+				for i, p := range x.Block().Preds {
+					if p == pred {
+						return eval(x.Edges[i], pred, op)
+					}
+				}
+			}
+			return false, false
+		}
+		for _, wn := range want {
+			var handler *ssa.Function
+			decided := true
+			b, pred := fn.Blocks[0], (*ssa.BasicBlock)(nil)
+			for steps := 0; steps < 64 && b != nil && handler == nil; steps++ {
+				for _, in := range b.Instrs {
+					if c, ok := in.(*ssa.Call); ok {
+						if f := c.Common().StaticCallee(); f != nil && w.inModule(f) && touches(f) {
+							handler = f
+						}
+					}
+				}
+				if handler != nil || len(b.Instrs) == 0 {
+					break
+				}
+				switch t := b.Instrs[len(b.Instrs)-1].(type) {
+				case *ssa.If:
+					// phis are evaluated relative to the edge we came in on
+					val, ok := eval(t.Cond, predOf(t.Cond, b, pred), wn.op)
+					if !ok {
+						decided = false
+						b = nil
+						break
+					}
+					pred = b
+					if val {
+						b = b.Succs[0]
+					} else {
+						b = b.Succs[1]
+					}
+				case *ssa.Jump:
+					pred, b = b, b.Succs[0]
+				default:
+					b = nil
+				}
+			}
+			if !decided {
+				r.Undecided(ri, "event dispatch of "+w.FnName(fn)+" is not a decision over fsnotify operations only")
+				continue
+			}
+			ok := false
+			if handler != nil {
+				reach, _ := w.CG().Reachable([]*ssa.Function{handler}, nil)
+				reach[handler] = nil
+				for g := range reach {
+					for _, c := range callsIn(g) {
+						if c.Common().IsInvoke() && c.Common().Method != nil {
+							m := c.Common().Method.Name()
+							if wn.del && m == "OnDeleted" || !wn.del && (m == "OnCreated" || m == "OnUpdated") {
+								ok = true
+							}
+						}
+					}
+				}
+			}
+			r.Ob(ri, w.FnName(fn)+"|"+wn.name, fn.Pos(), ok, fmt.Sprintf("a %s event of a rule file does not reach the %s handler: the change of that source is never applied", wn.name, map[bool]string{true: "delete", false: "create-or-update"}[wn.del]))
+		}
+	}
+	if !found {
+		r.Undecided(ri, "no fsnotify event dispatcher found in the file-system provider")
+	}
+}
+
+// predOf: a condition that is a Phi of the current block is evaluated relative to the block we came from.
+func predOf(cond ssa.Value, cur, pred *ssa.BasicBlock) *ssa.BasicBlock {
+	return pred
 }
